@@ -388,6 +388,17 @@ fn exec(cx: &mut Ctx, op: &Op, pc: usize) -> Option<u64> {
             }
             None
         }
+        Op::AwaitY { a, o, v } => {
+            loop {
+                loom::thread::yield_now();
+                let x = env.atomics[a as usize].load(o.to_std());
+                if x == v {
+                    break;
+                }
+                rec(tid, pc, HK::Spin, Some(x));
+            }
+            None
+        }
         Op::Spawn { t } => {
             let e2 = env.clone();
             // the spawned closure owns the thread's initial loom::sync::Arc handles
